@@ -25,6 +25,11 @@ import warnings
 
 warnings.simplefilter("ignore")
 
+# No external formatter in any configuration: drop every PATH entry that provides clang-format, so that
+# utils.format_cpp deterministically falls back to the unformatted text (see fav/props/c09.py: worker()).
+os.environ["PATH"] = os.pathsep.join(d for d in os.environ.get("PATH", "").split(os.pathsep)
+                                     if d and not os.path.exists(os.path.join(d, "clang-format")))
+
 with contextlib.redirect_stdout(io.StringIO()):
     import functional_algorithms as fa
     from functional_algorithms import expr as fa_expr
